@@ -7,11 +7,12 @@ import Simaple.Gen.Effects
 namespace Simaple.Props.C08
 open Simaple.Effect Simaple.Gen.Effects
 
-/-- methods whose purity rests on a correlation between two returned values that the (path-insensitive)
-    checker cannot see: `AdeleStormComponent.use` writes `state.stack` only when the events returned by
-    `use_periodic_damage_trait` contain no rejection, which is exactly when that trait returned a copy.
-    These are decided by the harvested-call replay only. -/
-def pathCorrelated : List (String × String) := [("AdeleStormComponent", "use")]
+/-- methods outside the discipline: none.  (`AdeleStormComponent.use` writes `state.stack` only when the events
+    returned by `use_periodic_damage_trait` contain no rejection, which is exactly when that trait returned a copy;
+    the translator now lowers such a statement list once per return site of the call and folds the constant
+    `is_rejected(events)`, so the correlation is visible to the checker.  The list is kept so that a method can be
+    named here, and left to the harvested-call replay, should a future one need it.) -/
+def pathCorrelated : List (String × String) := []
 
 def covered (e : Entry) : Bool := !(pathCorrelated.any (fun p => p.1 == e.cls && p.2 == e.method))
 
